@@ -6,7 +6,7 @@ from luqum.parser import parser
 from luqum.utils import UnknownOperationResolver
 
 CONFIGS = []
-for default in ("should", "must"):
+for default in ("".join(["sho", "uld"]), "".join(["mu", "st"])):      # equal to, but not the same object as, the builder's constants
     for nested in (None, {"n": ["x", "y"]}, {"n": {"x": None, "y": None, "m": ["z"]}}, {"n": {"m": ["z"]}}):
         for analysed in (True, False):
             CONFIGS.append({"default_operator": default, "nested_fields": nested,
@@ -28,6 +28,8 @@ TARGETED = [
     # negated groups around implicit / explicit operations (the default operator decides what the implicit one means)
     "NOT (a b)", "c AND NOT (a b)", "c NOT (a b)", "-(a b) c", "NOT (a AND b)", "NOT (a OR b) c", "n:(NOT (x:d y:e))", "n:(x:d AND m:(NOT (z:g z:g2)))",
     "t:(c NOT (a b))", "NOT (a -b)", "(a -b) AND c", "a (b -c)",
+    # negation of a negation, also as operand of an implicit / boolean operation
+    "a --b", "a -(-b)", "a NOT NOT b", "+a --b", "a -(NOT b)", "NOT NOT a b", "n:(x:d --y:e)", "--a", "NOT (NOT a)",
     # the same name component below two parents with different answers (history inside one builder)
     "o:(m:(z:g2)) AND n:(m:(z:g))", "n:(m:(z:g)) AND o:(m:(z:g2))", "o:(x:c) AND n:(x:d)", "n:(x:d) AND o:(x:c)", "o.x:c OR n:(x:d AND y:e)",
     "nx:q", "nx:q AND n.x:d", "n.mz:p", "n:(mz:p)", "n:(mz:p AND m.z:g)", "n.xy:r OR n.x:d", "n_m:s n.m.z:g",
